@@ -135,7 +135,7 @@ def _alarm(_signum, _frame):
 
 def run_program(item):
     signal.signal(signal.SIGALRM, _alarm)
-    signal.setitimer(signal.ITIMER_REAL, 15)
+    signal.setitimer(signal.ITIMER_REAL, 15, 15)
     try:
         return _run_program(item)
     finally:
@@ -147,8 +147,10 @@ def _run_program(prog):
     steps = []
     with contextlib.redirect_stdout(sink):
         itp = Interp(prog)
+        dead = False
         for st in prog["steps"]:
-            exc = itp.step(st)
+            exc = "WallClock" if dead else itp.step(st)
+            dead = dead or exc == "WallClock"
             rec = dict(st)
             rec["exc"] = exc
             rec["post"] = itp.project()
